@@ -192,3 +192,34 @@ Proof.
   intros Ha Ht. pose proof (sqrt_pos a) as P. pose proof (rnd32_rel (sqrt a)) as H. rewrite (Rabs_pos_eq (sqrt a)) in H by exact P.
   specialize (H Ht). pose proof u32_pos. nra.
 Qed.
+
+(* ---- non-vacuity: integers below 2^24 are binary32 numbers, and ordinary BatchNorm values (weight 2, bias 1, mean 1, variance 4,
+   input 3, with the exact square root as [sq]) meet every hypothesis of the theorem ---- *)
+Lemma rnd32_int (z : Z) : (Z.abs z < 2 ^ 24)%Z -> rnd32 (IZR z) = IZR z.
+Proof.
+  intros Hz. unfold rnd32. apply round_generic; [apply valid_rnd_N|].
+  replace (IZR z) with (F2R (Float radix2 z 0)) by (unfold F2R; simpl; lra).
+  apply generic_format_F2R. intros Hnz. unfold cexp, FLT_exp. rewrite (mag_F2R_Zdigits radix2 z 0 Hnz).
+  pose proof (Zdigits_le_Zpower radix2 24 z Hz) as D. apply Z.max_lub; lia.
+Qed.
+
+Lemma tiny32_le_1 : tiny32 <= 1.
+Proof. unfold tiny32. change 1 with (bpow radix2 0). apply bpow_le. apply Z.leb_le. reflexivity. Qed.
+
+Example bn_hypotheses_hold_for_ordinary_values :
+  let sq := sqrt in let w := 2 in let b := 1 in let eps := 0 in let x := 3 in let m := 1 in let v := 4 in
+  (forall a, 0 <= a -> Rabs (sq a - sqrt a) <= 2 * u32 * sqrt a) /\ 0 < v + eps /\
+  tiny32 <= Rabs (x - m) /\ tiny32 <= Rabs (v + eps) /\ tiny32 <= Rabs (rnd32 (x - m) / sq (rnd32 (v + eps))) /\
+  tiny32 <= Rabs (w * rnd32 (rnd32 (x - m) / sq (rnd32 (v + eps)))) /\
+  tiny32 <= Rabs (rnd32 (w * rnd32 (rnd32 (x - m) / sq (rnd32 (v + eps)))) + b).
+Proof.
+  cbv zeta. pose proof tiny32_le_1 as T. pose proof u32_pos as Up.
+  assert (R2 : rnd32 2 = 2) by (apply (rnd32_int 2); reflexivity).
+  assert (R4 : rnd32 4 = 4) by (apply (rnd32_int 4); reflexivity).
+  assert (R1 : rnd32 1 = 1) by (apply (rnd32_int 1); reflexivity).
+  assert (S4 : sqrt 4 = 2) by (replace 4 with (2 * 2) by lra; apply sqrt_square; lra).
+  replace (3 - 1) with 2 by lra. replace (4 + 0) with 4 by lra. rewrite R2, R4, S4.
+  replace (2 / 2) with 1 by lra. rewrite R1. replace (2 * 1) with 2 by lra. rewrite R2. replace (2 + 1) with 3 by lra.
+  repeat split; try (rewrite Rabs_pos_eq by lra; lra); try lra.
+  intros a Ha. replace (sqrt a - sqrt a) with 0 by ring. rewrite Rabs_R0. pose proof (sqrt_pos a). nra.
+Qed.
